@@ -599,7 +599,6 @@ harnesses! {
     c01_lookup_unsized: [1] [2];
     @deep
     c01u_ops: [10] [12];
-    c01_lookup_unsized: [3];
     c01_hist: [2, 3] [3, 3] [3, 4];
     c06_refs: [4];
     c06_refs_set: [4];
